@@ -968,7 +968,7 @@ func c07MakeNest(id c07ID, kind, d int) *c07Case {
 
 // ---- long jumps ------------------------------------------------------------------------------------
 
-var c07JumpKinds = []string{"while", "repeat", "numfor", "genfor", "if-skip", "if-else", "break", "goto-back", "goto-forward", "numfor-close"}
+var c07JumpKinds = []string{"while", "repeat", "numfor", "genfor", "if-skip", "if-else", "break", "goto-back", "goto-forward", "numfor-close", "nested-if-else-two-hops-then", "nested-if-else-two-hops-else"}
 
 func c07MakeJump(id c07ID, kind, n int) *c07Case {
 	if n < 0 || n > 400000 {
@@ -1000,6 +1000,16 @@ func c07MakeJump(id c07ID, kind, n int) *c07Case {
 	case "goto-forward":
 		src = "local x=0 goto done " + body + "::done:: return x"
 		want = 0
+	case "nested-if-else-two-hops-then", "nested-if-else-two-hops-else":
+		// the jump that ends the inner then-branch lands on the jump that ends the outer then-branch:
+		// each hop fits into sBx, their sum does not
+		half := strings.Repeat("x=x+1 ", n/2+8)
+		b := "true"
+		want = -1
+		if strings.HasSuffix(c07JumpKinds[kind], "else") {
+			b, want = "false", float64(n/2+8)
+		}
+		src = "local x=0 local a,b=true," + b + " if a then if b then x=-1 else " + half + "end else " + half + "end return x"
 	case "numfor-close":
 		src = "local x=0 local fn for i=1,2 do local c=i fn=function() return c end " + body + "end return x+fn()"
 		want = float64(2*n + 2)
